@@ -7,6 +7,7 @@ import Qco.Spec.File
 import Qco.Train.WFc
 import Qco.Op.Decomp
 import Qco.Glue.Auto
+import Qco.Op.Comp
 import Qco.DType.Timestamps
 namespace Qco.Driver
 open Qco
@@ -300,11 +301,125 @@ def cmdTs (args : List String) : String :=
       | _, _ => "bad-op"
   | _ => "bad-args"
 
+/-! ### spec encoder on a generated syntax tree (`ast`), used by the C03 generator -/
+
+def parseBitsStr (s : String) : Bits := s.toList.map (· == '1')
+
+def parsePrefix (s : String) : Prefix :=
+  match s.splitOn ":" with
+  | [cnt, lo, hi, code, jump, g] =>
+    { count := cnt.toNat!, lower := Hex.toNat lo, upper := Hex.toNat hi, code := parseBitsStr code,
+      jump := if jump == "-" then none else some jump.toNat!, gcd := Hex.toNat g }
+  | _ => default
+
+def parseBlock (s : String) : Block :=
+  match s.splitOn ":" with
+  | [p, off] => .one (p.drop 1).toString.toNat! (Hex.toNat off)
+  | [p, off0, offs] => .run (p.drop 1).toString.toNat! (Hex.toNat off0) (parseNums offs)
+  | _ => .one 0 0
+
+def splitNE (s : String) (sep : String) : List String :=
+  if s == "-" || s == "" then [] else s.splitOn sep
+
+def parseAChunk (s : String) : AChunk :=
+  match s.splitOn "/" with
+  | [n, moments, common, prefixes, blocks] =>
+    { cm := { n := n.toNat!, bodyBytes := 0, moments := parseNums moments,
+              commonGcd := if common == "-" then none else some (Hex.toNat common),
+              prefixes := (splitNE prefixes ";").map parsePrefix },
+      blocks := (splitNE blocks ";").map parseBlock }
+  | _ => default
+
+def cmdAst (args : List String) : String :=
+  match args with
+  | dt :: fl :: chunks =>
+    match Frozen.dtypeByName dt, fl.splitOn "," with
+    | some d, [u, o, m, g] =>
+      let flags : Flags := { use5 := u == "1", order := o.toNat!, minCount := m == "1", gcds := g == "1" }
+      let f : AFile := { flags := flags, chunks := chunks.map parseAChunk }
+      let bits := encodeFile gbFloat d f
+      let self := match decodeFile gbFloat d bits with
+        | .ok df r => b01 (df == f.toD && r.isEmpty)
+        | _ => "0"
+      s!"ok bytes={Hex.ofBits bits} self={self} | " ++ " | ".intercalate (f.chunks.map fun c => s!"vals={valsStr (chunkVals d flags c.toD)}")
+    | _, _ => "bad-args"
+  | _ => "bad-args"
+
+/-! ### compressor operations (`cops`) -/
+
+/-- `common_gcd_for_chunk_meta`: the common field the writer emits for a prefix table -/
+def commonGcdOf (ps : List Prefix) : Option Nat :=
+  let nontrivial := ps.filter fun p => p.lower != p.upper
+  match ps, nontrivial with
+  | [], _ => none
+  | _, [] => some 1
+  | _, [p] => some p.gcd
+  | _, _ => none
+
+def parseMetaH (s : String) : ChunkMeta :=
+  -- "n=..~body=..~moments=..~prefixes=.." (spaces replaced by ~)
+  let kv := (s.splitOn "~").filterMap fun t =>
+    match t.splitOn "=" with
+    | [k, v] => some (k, v)
+    | _ => none
+  let get := fun k => ((kv.find? fun x => x.1 == k).map (·.2)).getD ""
+  { n := (get "n").toNat!, bodyBytes := (get "body").toNat!, moments := parseNums (get "moments"),
+    commonGcd := none, prefixes := (splitNE (get "prefixes") ";").map parsePrefix }
+
+def copStep (d : DType) (cfg : Op.CConfig) (σ : Op.CSt) (op : String) : String × Op.CSt :=
+  let head := (op.take 1).toString
+  let arg := (op.drop 1).toString
+  let exStr := fun (r : Except Op.CErr Unit) => match r with
+    | .ok _ => "ok"
+    | .error _ => "err InvalidArgument"
+  match head with
+  | "H" => let (r, σ') := Op.cHeader d cfg σ; (exStr r, σ')
+  | "F" => let (r, σ') := Op.cFooter σ; (exStr r, σ')
+  | "E" =>
+    match Op.cChunk gbFloat d cfg σ 0 default with
+    | (.ok _, σ') => ("ok meta ?", σ')
+    | (.error _, σ') => ("err InvalidArgument", σ')
+  | "C" =>
+    match arg.splitOn "#" with
+    | [nums, metaS] =>
+      let vals := parseNums nums
+      let fl := cfg.flags
+      let m0 := if metaS == "-" then default else parseMetaH metaS
+      let common := if fl.gcds then commonGcdOf m0.prefixes else none
+      let ps := match common with
+        | some g => m0.prefixes.map fun p => { p with gcd := g }
+        | none => m0.prefixes
+      let us := codedUs d fl vals
+      let blocks := (greedyBlocks ps us.length us).getD []
+      let trained : AChunk := { cm := { m0 with commonGcd := common, prefixes := ps }, blocks := blocks }
+      match Op.cChunk gbFloat d cfg σ vals.length trained with
+      | (.ok m, σ') => (s!"ok meta {metaStrH { m0 with bodyBytes := m.bodyBytes }}", σ')
+      | (.error _, σ') => ("err InvalidArgument", σ')
+    | _ => ("bad-op", σ)
+  | "D" => let (b, σ') := Op.cDrain σ; (s!"bytes {Hex.ofBits b}", σ')
+  | "Z" => ("ok", σ)
+  | _ => ("bad-op", σ)
+
+def cmdCops (args : List String) : String :=
+  match args with
+  | dt :: level :: order :: gcds :: ops =>
+    match Frozen.dtypeByName dt with
+    | none => "bad-dtype"
+    | some d =>
+      let cfg : Op.CConfig := { level := level.toNat!, order := order.toNat!, gcds := gcds == "1" }
+      let (outs, _) := ops.foldl (fun (acc : List String × Op.CSt) op =>
+        let (r, σ') := copStep d cfg acc.2 op
+        (s!"{r}@{Op.cByteSize σ'}" :: acc.1, σ')) ([], Op.CSt.init)
+      " ; ".intercalate outs.reverse
+  | _ => "bad-args"
+
 def answer (line : String) : String :=
   match line.trimAscii.toString.splitOn " " with
   | "dec" :: args => cmdDec args
   | "enc" :: args => cmdEnc args
   | "dops" :: args => cmdDops args
+  | "cops" :: args => cmdCops args
+  | "ast" :: args => cmdAst args
   | "ts" :: args => cmdTs args
   | "auto" :: sizes => toString (Glue.pickOrder (sizes.map String.toNat!))
   | "map" :: args => cmdMap args
